@@ -131,6 +131,8 @@ class NotOnCurve(Exception):
     pass
 
 def decodepoint(s):
+    if len(s) != 32:
+        raise ValueError("encoded point must be exactly 32 bytes")
     unclamped = int(binascii.hexlify(s[:32][::-1]), 16)
     clamp = (1 << 255) - 1
     y = unclamped & clamp # clear MSB
